@@ -511,14 +511,15 @@ pub struct GenericRun<'a> {
 }
 
 pub fn replay_model(v: &Value) -> Option<ModuleSet> {
-    serde_json::from_value(v["model"].clone()).ok()
+    // the model is stored as a JSON string: serde_json::Value cannot hold i128 numbers
+    v["model_json"].as_str().and_then(|s| serde_json::from_str(s).ok())
 }
 
 pub fn model_payload(kind: &str, ms: &ModuleSet, observed: Value) -> Value {
     json!({
         "kind": kind,
         "sources": [{"name": "input.asn", "text": print(ms)}],
-        "model": ms,
+        "model_json": serde_json::to_string(ms).unwrap_or_default(),
         "observed": observed,
     })
 }
